@@ -29,8 +29,8 @@ type sgen struct {
 	used map[string]bool
 
 	ifaces, objs, unions, enums, inputs, scalars []*TypeDef
-	implOf                                        map[string][]string // interface → known implementers (interfaces and objects)
-	maxFields                                     int
+	implOf                                       map[string][]string // interface → known implementers (interfaces and objects)
+	maxFields                                    int
 }
 
 func (g *sgen) typeName(pool []string) string {
